@@ -3,3 +3,7 @@
 
 def c16(chk, P):
     return
+
+
+def c03(chk, P):
+    return
